@@ -150,7 +150,7 @@ def decRec (j : Json) : Except String Rec := do
   | "backend-raise" =>
     -- third field (optional): the class name of what the handler raised
     let cls := (a[2]? >>= fun j => j.getStr?.toOption).getD "Exception"
-    pure (.backendRaise (← a[1]!.getNat?) (LccModel.RunOutcome.FaultClass.ofName cls).isException)
+    pure (.backendRaise (← a[1]!.getNat?) (LccModel.RunOutcome.pendingAfter (LccModel.RunOutcome.FaultClass.ofName cls) "").isSome)
   | "handler-exit" => pure .handlerExit
   | k => throw s!"unknown record {k}"
 
